@@ -328,8 +328,8 @@ uint8 ICACHE_FLASH_ATTR supla_esp_mqtt_publish(void) {
               uptime_msec() + MQTT_SEND_BUFFER_FULL_HOLD_TIME_MS;
         }
         supla_log(LOG_DEBUG, "MQTT Publish Error %s. MQ_len %i. Will retry...",
-                  mqtt_mq_length(&supla_esp_mqtt_vars->client.mq),
-                  mqtt_error_str(r));
+                  mqtt_error_str(r),
+                  mqtt_mq_length(&supla_esp_mqtt_vars->client.mq));
       }
       find_next = 0;
     }
